@@ -66,6 +66,8 @@ SCHED = {
     'clk(0) then 2': [0, 2],
     '3, clear, 2': [3, 'C', 2],
     '1, clear, clear, 4': [1, 'C', 'C', 4],
+    '2, Simulator(hw) again, 3': [2, 'S', 3],
+    '1, getSimulator() again, 2, Simulator(hw) again, 1+1': [1, 'G', 2, 'S', 1, 1],
     '2, clear second, 2': [2, 'D', 2],
     '2, clear first, 1, clear second, 2': [2, 'C', 1, 'D', 2],
 }
@@ -109,6 +111,15 @@ def run_capture(watch, sched, values=None, rec=None, with_wvf=True, second=False
                 wvf2.clear()
             for k in expected2:
                 expected2[k] = []
+            continue
+        if item == 'S':
+            # the simulator is obtained again in the middle of a recording, the way the interactive test benches do it
+            with quiet():
+                sim = py4hw.simulation.Simulator(s)
+            continue
+        if item == 'G':
+            with quiet():
+                sim = s.getSimulator()
             continue
         if item == 'C':
             if wvf is not None:
@@ -155,7 +166,7 @@ def capture_task(p, cfg, rec):
     rec2 = run_capture.second[0] if second else None
     _, expected, v2, _, _ = run_capture(watch, SCHED[sched], rec=rec, with_wvf=False, second=second, late=late)
     exp2 = run_capture.second[1] if second else None
-    cycles = sum(x for x in SCHED[sched][max([i for i, x in enumerate(SCHED[sched]) if x == 'C'] + [-1]) + 1:] if x not in ('C', 'D'))
+    cycles = sum(x for x in SCHED[sched][max([i for i, x in enumerate(SCHED[sched]) if x == 'C'] + [-1]) + 1:] if x not in ('C', 'D', 'S', 'G'))
     p.res['states'] += 1
     p.res['transitions'] += cycles
 
